@@ -84,30 +84,78 @@ def normalise(repo: Repo, func: Func, names: t.Optional[t.Dict[str, str]] = None
     return out
 
 
-def _propagate_constants(body: t.List[ast.stmt]) -> t.List[ast.stmt]:
-    """`v = <const>` assigned once at top level and never reassigned: substitute and drop (so that
-    `ctx = 0; request(ctx, ..)` and `request(0, ..)` compare equal)."""
-    counts: t.Dict[str, int] = {}
-    for s in body:
+def _assigned(stmts: t.List[ast.stmt]) -> t.Set[str]:
+    out: t.Set[str] = set()
+    for s in stmts:
         for n in ast.walk(s):
             if isinstance(n, ast.Name) and isinstance(n.ctx, ast.Store):
-                counts[n.id] = counts.get(n.id, 0) + 1
-    consts: t.Dict[str, ast.Constant] = {}
-    for s in body:
-        if isinstance(s, ast.Assign) and len(s.targets) == 1 and isinstance(s.targets[0], ast.Name) and isinstance(s.value, ast.Constant) and counts.get(s.targets[0].id) == 1:
-            consts[s.targets[0].id] = s.value
+                out.add(n.id)
+    return out
+
+
+def _propagate_constants(body: t.List[ast.stmt], env: t.Optional[t.Dict[str, t.Any]] = None) -> t.List[ast.stmt]:
+    """Forward substitution of `v = <const>` within a block (and into nested blocks) until v is
+    reassigned, dropping the assignment: `ctx = 0; request(ctx, ..)` and `request(0, ..)` compare equal.
+    Also fuses `v = E; with v:` into `with E as v:`."""
+    env = dict(env or {})
 
     class Sub(ast.NodeTransformer):
         def visit_Name(self, node: ast.Name) -> ast.AST:
-            if isinstance(node.ctx, ast.Load) and node.id in consts:
-                return ast.Constant(value=consts[node.id].value)
+            if isinstance(node.ctx, ast.Load) and node.id in env:
+                return ast.Constant(value=env[node.id])
             return node
 
-    out = []
-    for s in body:
-        if isinstance(s, ast.Assign) and len(s.targets) == 1 and isinstance(s.targets[0], ast.Name) and s.targets[0].id in consts:
+    out: t.List[ast.stmt] = []
+    i = 0
+    while i < len(body):
+        s = body[i]
+        nxt = body[i + 1] if i + 1 < len(body) else None
+        if (
+            isinstance(s, ast.Assign)
+            and len(s.targets) == 1
+            and isinstance(s.targets[0], ast.Name)
+            and isinstance(nxt, ast.With)
+            and len(nxt.items) == 1
+            and nxt.items[0].optional_vars is None
+            and isinstance(nxt.items[0].context_expr, ast.Name)
+            and nxt.items[0].context_expr.id == s.targets[0].id
+        ):
+            fused = ast.With(items=[ast.withitem(context_expr=s.value, optional_vars=ast.Name(id=s.targets[0].id, ctx=ast.Store()))], body=nxt.body)
+            body = body[:i] + [fused] + body[i + 2 :]
             continue
-        out.append(ast.fix_missing_locations(Sub().visit(s)))
+        if isinstance(s, ast.Assign) and len(s.targets) == 1 and isinstance(s.targets[0], ast.Name):
+            val = Sub().visit(s.value)
+            if isinstance(val, ast.Constant):
+                env[s.targets[0].id] = val.value
+                i += 1
+                continue
+        if isinstance(s, (ast.With, ast.If, ast.For, ast.While, ast.Try)):
+            s = copy.copy(s)
+            for field in ("items", "test", "iter"):
+                if hasattr(s, field):
+                    v = getattr(s, field)
+                    setattr(s, field, [Sub().visit(x) for x in v] if isinstance(v, list) else Sub().visit(v))
+            inner_assigned = set()
+            for field in ("body", "orelse", "finalbody"):
+                blk = getattr(s, field, None)
+                if isinstance(blk, list) and blk:
+                    inner_assigned |= _assigned(blk)
+            loop = isinstance(s, (ast.For, ast.While))
+            inner_env = {k: v for k, v in env.items() if not (loop and k in inner_assigned)}
+            for field in ("body", "orelse", "finalbody"):
+                blk = getattr(s, field, None)
+                if isinstance(blk, list) and blk:
+                    setattr(s, field, _propagate_constants(blk, inner_env))
+            for k in inner_assigned:
+                env.pop(k, None)
+            out.append(ast.fix_missing_locations(s))
+            i += 1
+            continue
+        s2 = Sub().visit(s)
+        for k in _assigned([s]):
+            env.pop(k, None)
+        out.append(ast.fix_missing_locations(s2))
+        i += 1
     return out
 
 
